@@ -335,3 +335,42 @@ def work_wires_of(op):
     ww = list(getattr(op, "work_wires", None) or [])
     wwt = getattr(op, "work_wire_type", None) or "borrowed"
     return [w for w in ww if w not in op.wires], wwt
+
+
+def sweep(per_form=None, maxw=9, names=None):
+    """Deterministic finite sub-domain: for every zoo leaf and wrapper form a few fixed instances (drawn from the
+    same strategy with Hypothesis' derandomised generator, the all-minimal first example skipped) and, for each
+    instance, one case per applicable rule. Yields specs."""
+    import warnings
+
+    from hypothesis import HealthCheck, Phase, given, settings
+
+    warnings.simplefilter("ignore")
+    per_form = per_form or {"B": 2, "A": 1, "P": 2, "C": 3}
+    for name in (names or leaf_names()):
+        for form, k in per_form.items():
+            got = []
+
+            @settings(max_examples=k + 1, derandomize=True, database=None, deadline=None, phases=[Phase.generate],
+                      suppress_health_check=list(HealthCheck))
+            @given(targets(names=[name], forms=[form]))
+            def collect(s):
+                got.append(s)
+
+            try:
+                collect()
+            except Exception:  # noqa: BLE001
+                continue
+            seen = set()
+            for s in got[1:] or got:
+                key = repr(s["t"])
+                if key in seen:
+                    continue
+                seen.add(key)
+                try:
+                    op = build_target(s["t"])
+                    n = len(applicable_rules(op))
+                except Exception:  # noqa: BLE001
+                    n = 1  # let check() surface the problem
+                for r in range(n):
+                    yield {"t": s["t"], "r": r, "maxw": maxw}
